@@ -35,6 +35,8 @@ def leaf_schemas():
     out += [{"k": "int", "f": f} for f in INT_FORMATS]
     # `type: string` with a NUMERIC format (Google-style 64-bit numbers): from_format types the member as a number (F02-9)
     out += [{"k": "str", "f": "int64"}, {"k": "str", "f": "int32"}, {"k": "str", "f": "double"}, {"k": "str", "f": "byte"}]
+    # `enum` with ONE string value / `const`: typed `String`, the value becomes the member's default (F02-15)
+    out += [{"k": "single", "v": "x"}, {"k": "single", "v": "kk", "const": True}]
     return out
 
 
@@ -124,6 +126,8 @@ class Render:
         if k in ("str", "bool", "num", "int"):
             t, extra = self.scalar_type(s)
             return dict({"type": t}, **extra)
+        if k == "single":
+            return {"type": "string", "const": s["v"]} if s.get("const") else {"type": "string", "enum": [s["v"]]}
         if k == "enum":
             js = {"enum": list(s["vals"])}
             if all(isinstance(v, str) for v in s["vals"]):
@@ -173,7 +177,9 @@ class Render:
                 cnt[norm(p["n"])] = cnt.get(norm(p["n"]), 0) + 1
             for p in s["props"]:
                 ps = self.render(p["s"], "prop" if cnt[norm(p["n"])] == 1 else "deep")
-                if p.get("d") is not None:
+                if p["s"]["k"] == "single":
+                    pass                                      # the value itself is the default; `d` is ignored
+                elif p.get("d") is not None:
                     if p["s"]["k"] != "str":
                         raise ValueError("default on non-string")
                     ps = dict(ps, default=p["d"])
@@ -248,6 +254,8 @@ def inst(s, r, wild=0.03):
     k = s["k"]
     if k == "str":
         return r.choice(STRS + (["123", "0", "-5", "1.5", "aGVsbG8="] if s.get("f") else []))
+    if k == "single":
+        return s["v"]
     if k == "bool":
         return r.random() < 0.5
     if k == "num":
@@ -287,6 +295,8 @@ def wrong_type_values(s):
     k = s["k"]
     if k == "str":
         return [5, True, ["a"], {"a": 1}]
+    if k == "single":
+        return [5, [s["v"]], None]
     if k == "bool":
         return [0, "true", [True]]
     if k == "num":
@@ -315,6 +325,9 @@ def mutations(s, doc):
         return
     for w in wrong_type_values(s):
         yield "wrong-type", w
+    if k == "single":
+        yield "undeclared-enum", "zzz"
+        yield "undeclared-enum", s["v"] + "2"
     if k == "enum":
         yield "undeclared-enum", "zzz"
         for v in s["vals"]:
